@@ -57,7 +57,7 @@ func Run(id, tier string, seed int, replay string) (code int) {
 			code = 1
 		}
 	}()
-	p, err := core.Load("linux", nil)
+	p, err := core.Load("linux", overlayFromEnv())
 	if err != nil {
 		fmt.Printf("%s: cannot load /repo: %v\n", id, err)
 		fmt.Printf("VIOLATION property=%s replay=%s/evidence/replay/%s-load.json\n", id, core.VerifDir(), id)
@@ -75,6 +75,7 @@ func Run(id, tier string, seed int, replay string) (code int) {
 	c := &Ctx{R: r, P: p, Tier: tier, Seed: seed}
 	fn(c)
 	if tier == "thorough" {
+		runSelfTest(c, id)
 		if dfn, ok := darwinRules[id]; ok {
 			dp, err := core.Load("darwin", nil)
 			if err != nil {
